@@ -71,8 +71,40 @@ def cases(tier):
             yield l, dict(coverage=c)
 
 
+# number of DISTINCT items in one saved list: round numbers of the kind a writer that buffers or blocks its output would use, and their neighbours
+BIG_SIZES = {'quick': [255, 256, 257, 1000, 1024, 4095, 4096, 4097, 8192, 10000], 'thorough': [255, 256, 257, 512, 1000, 1024, 2048, 4095, 4096, 4097, 8191, 8192, 10000, 16384, 32768, 65536]}
+
+
+def big_list(k):
+    """k distinct five-digit strings (one list file with exactly k lines), the first ones repeated, behind a few ordinary passwords"""
+    lines = ['password1', 'Password1', 'letmein!', 'qwerty12']
+    for i in range(k):
+        lines += ['%05d' % (10000 + i)] * (3 if i < 2 else 2 if i < 5 else 1)
+    return lines
+
+
 def shards(tier):
-    return [('t', i, NSHARDS) for i in range(NSHARDS)] + [('subproc', 0, 1), ('cli', 0, 1)]
+    return [('t', i, NSHARDS) for i in range(NSHARDS)] + [('subproc', 0, 1), ('cli', 0, 1)] + [('big', k, 1) for k in BIG_SIZES[tier]]
+
+
+def run_big(shard, tier, acc):
+    k = shard[1]
+    tree.use()
+    wd = tree.mkdtemp('pcfgmc-c06b-')
+    lines = big_list(k)
+    opts = dict(coverage=0.6)
+    acc.evals += 1
+    acc.nontrivial += 1
+    case = {'layer': 'big', 'distinct_items': k}
+    ok, base, out, pi = P.train(wd, lines, rule='big', **opts)
+    if ok is not True:
+        acc.fail(case, 'big: training a list with %d distinct five-digit strings did not complete' % k, 'big-train')
+    else:
+        msgs, distinct = check_ruleset(base, lines, opts)
+        for m in msgs[:3]:
+            acc.fail(case, 'big (%d distinct items in Digits/5.txt): %s' % (k, m), 'big:' + m.split(':')[0].split('/')[0])
+    acc.sample({'layer': 'big', 'distinct_items_in_one_file': BIG_SIZES[tier]}, cap=1)
+    tree.rmtree(wd)
 
 
 def bounds(tier):
@@ -332,6 +364,8 @@ def run_cli(tier, acc):
 
 
 def run_shard(shard, tier, acc):
+    if shard[0] == 'big':
+        return run_big(shard, tier, acc)
     if shard[0] == 'cli':
         return run_cli(tier, acc)
     if shard[0] == 'subproc':
@@ -341,6 +375,11 @@ def run_shard(shard, tier, acc):
 
 
 def replay(case):
+    if case.get('layer') == 'big':
+        from ..runner import Acc
+        acc = Acc()
+        run_big(('big', case['distinct_items'], 1), 'quick', acc)
+        return acc.failures[0]['msg'] if acc.failures else None
     if case.get('layer') == 'cli':
         from ..runner import Acc
         acc = Acc()
